@@ -281,10 +281,10 @@ Proof.
 Qed.
 
 (* ---- quoted string ---- *)
-Lemma T_str st s r : escape_safe s = true -> ls_in st = quote s ++ c_nl :: r -> ls_spans st = [] ->
+Lemma T_str st s r : ls_in st = quote s ++ c_nl :: r -> ls_spans st = [] ->
   exists st', tstep st st' STRING (TVText s) (c_nl :: r) (Some c_dq).
 Proof.
-  intros Hs Hin Hsp. unfold quote in Hin. cbn [app] in Hin. rewrite <- app_assoc in Hin. cbn [app] in Hin.
+  intros Hin Hsp. unfold quote in Hin. cbn [app] in Hin. rewrite <- app_assoc in Hin. cbn [app] in Hin.
   set (s' := escape s ++ c_dq :: c_nl :: r) in *.
   destruct (tstep_emit_pat st c_dq s' STRING (TVText (unescape_tok (escape s))) (c_dq :: escape s ++ [c_dq]) (c_nl :: r) Hin Hsp)
     as (st' & H & _); try reflexivity.
@@ -293,7 +293,7 @@ Proof.
       cbn [app prefixb]. rewrite N.eqb_refl. rewrite (neqb c_dq y) by congruence. reflexivity.
     + subst s'. apply scan_dq_body_escape. cbn [length]. rewrite app_length. lia.
   - discriminate.
-  - exists st'. rewrite (unescape_tok_escape _ Hs) in H.
+  - exists st'. rewrite unescape_tok_escape in H.
     change (c_dq :: escape s ++ [c_dq]) with ((c_dq :: escape s) ++ [c_dq]) in H. rewrite last_chr_app_last in H. exact H.
 Qed.
 
